@@ -1,8 +1,9 @@
 """C08 - buffer debounces: one non-overlapping, non-empty call per quiet period."""
 from vf.harness import buffer as H
 from vf.props import buffer_common as B
-from vf.runner import Result
+from vf.runner import Result, V
 from vf.sim.kernel import HarnessError
+from vf.sim.world import thread_exc_violations
 
 ID = 'C08'
 LEVEL = 'exploration'
@@ -27,9 +28,11 @@ def strategy(tier):
 
 def run_case(case):
     hist = H.run(case)
-    if hist['thread_excs']:
-        raise HarnessError('thread exception in buffer harness: %r' % hist['thread_excs'])
+    died, harness = thread_exc_violations(hist['thread_excs'], V)
+    if harness:
+        raise HarnessError('thread exception in buffer harness: %r' % harness)
     viol, skipped = B.judge_debounce(case, hist)
+    viol += died
     if hist['stop'] != 'finished':
         viol += [v for v in B.judge_delivery(case, hist) if v['kind'] == 'hang']
     T = case['T']
